@@ -418,7 +418,9 @@ fn history_step(w: &mut World, g: &mut Ghost, n_keys: usize, tag: &str) {
     match op {
         0 => {
             let variant = choice(2);
-            let nonchunk = ki == 1; // key 1 carries a non-chunk kind, the others chunks
+            // key 1 carries a non-chunk kind, the others chunks (C01_NONCHUNK_FIRST=1 swaps that, so that the
+            // one-key histories run on a mutable kind as well)
+            let nonchunk = (ki == 1) != (std::env::var("C01_NONCHUNK_FIRST").ok().as_deref() == Some("1"));
             let r = the_record(ki, variant, nonchunk);
             let val = r.value.clone();
             let res = w.driver.arm_put_local_record(r);
